@@ -390,6 +390,25 @@ pub trait RiRefBufImpl: Sized + RiRefImpl {
 		}
 	}
 
+	/// Removes the dot segments of the path as RFC 3986 section 5.2.4 does:
+	/// in-place normalization, plus the trailing `/` left by a final dot
+	/// segment (`/a/.` becomes `/a/`, `/a/b/..` becomes `/a/`).
+	fn remove_dot_segments(&mut self) {
+		let open = match self.path().last() {
+			Some(segment) => {
+				let bytes = segment.as_bytes();
+				bytes == b"." || bytes == b".."
+			}
+			None => false,
+		};
+
+		let mut path = self.path_mut();
+		path.normalize();
+		if open && !path.is_empty() {
+			path.push(<<Self::Path as PathImpl>::Segment as SegmentImpl>::EMPTY)
+		}
+	}
+
 	/// Resolve the URI/IRI reference.
 	///
 	/// ## Abnormal use of dot segments.
@@ -399,11 +418,11 @@ pub trait RiRefBufImpl: Sized + RiRefImpl {
 		let parts = parse::reference_parts(self.as_bytes(), 0);
 
 		if parts.scheme.is_some() {
-			self.path_mut().normalize();
+			self.remove_dot_segments();
 		} else {
 			self.set_scheme(Some(base_iri.scheme()));
 			if parts.authority.is_some() {
-				self.path_mut().normalize();
+				self.remove_dot_segments();
 			} else if self.path().is_relative() && self.path().is_empty() {
 				self.set_authority(base_iri.authority());
 				self.set_path(base_iri.path());
@@ -412,7 +431,7 @@ pub trait RiRefBufImpl: Sized + RiRefImpl {
 				}
 			} else if self.path().is_absolute() {
 				self.set_authority(base_iri.authority());
-				self.path_mut().normalize();
+				self.remove_dot_segments();
 			} else {
 				self.set_authority(base_iri.authority());
 				let mut path_buffer = Self::RiBuf::from_scheme(base_iri.scheme().to_owned()); // we set the scheme to avoid path disambiguation.
